@@ -43,7 +43,11 @@ def phase_fraction(zs, Ks, guess=None, za=0., zb=0.):
         if Ks.max() <= (1.0 + 1e-9): return 1
         if Ks.min() >= (1.0 - 1e-9): return 0
         if N == 2:
-            phase_fraction = compute_phase_fraction_2N(zs, Ks)
+            try: 
+                phase_fraction = compute_phase_fraction_2N(zs, Ks)
+            except ZeroDivisionError: 
+                # Both partition coefficients are 1 to within round-off: the phases are identical
+                return 1
         else:
             raise ValueError('number of chemicals in equilibrium must be 2 or more '
                              'to find phase fraction')
